@@ -287,6 +287,22 @@ func (r *runner) doWrite(s int, side string, want *frameT, wantOk *bool) bool {
 	return true
 }
 
+// peerIndependent: the peer of x no longer depends on x (PeerIndependent of the specification): it has read
+// everything it reads, or x is the initiator waiting for the last ack (its own ack is already on the wire)
+func peerIndependent(se *session, x *sideRun) bool {
+	peer := se.o
+	if x == se.o {
+		peer = se.i
+	}
+	if x.ep.proto {
+		return x.ep.side == "O" // the responder decides on the one frame it reads
+	}
+	if peer.finished || (peer.ep.side == "I" && peer.ep.popped >= 2) {
+		return true
+	}
+	return x.ep.side == "O" && x.ep.popped >= 1
+}
+
 func typeAllowed(x *sideRun, tp byte) bool {
 	if x.ep.proto {
 		if x.ep.side == "O" {
@@ -334,7 +350,7 @@ func (r *runner) points(x *sideRun) []int {
 }
 
 func (r *runner) doRecv(s int, side string, q int, want *frameT) bool {
-	_, x := r.side(s, side)
+	se, x := r.side(s, side)
 	r.w.mu.Lock()
 	ep := x.ep
 	if x.finished || ep.parked != "R" || len(ep.inflight) == 0 || ep.stalled || *ep.killed || ep.closed {
@@ -390,6 +406,9 @@ func (r *runner) doRecv(s int, side string, q int, want *frameT) bool {
 			kind = "garbage-type"
 		case !hdrOk:
 			kind = "out-of-order"
+		}
+		if ep.consumedCorrupt == "" {
+			ep.corruptPeerIndep = peerIndependent(se, x)
 		}
 		ep.consumedCorrupt = kind
 	}
@@ -522,6 +541,9 @@ func (r *runner) doStall(s int, side string) bool {
 	ep.stalled = true
 	got := gotOf(ep.inflight[0], x)
 	if got > 0 {
+		if ep.consumedCorrupt == "" {
+			ep.corruptPeerIndep = peerIndependent(se, x)
+		}
 		ep.consumedCorrupt = "truncated"
 	}
 	se.faults++
@@ -689,6 +711,16 @@ func (r *runner) oracles() []finding {
 			res = append(res, r.successSound(se, x, who)...)
 			if c := x.ep.consumedCorrupt; c != "" {
 				add("fault-success:"+c, "%s succeeded although it consumed a %s frame", who, c)
+			}
+		}
+		// a malformed / truncated frame must end in an error on BOTH sides, unless the other side no longer
+		// depended on the end that consumed it; judged when that frame is the only fault of the session
+		for _, pair := range [][2]*sideRun{{se.o, se.i}, {se.i, se.o}} {
+			x, peer := pair[0], pair[1]
+			if c := x.ep.consumedCorrupt; c != "" && !x.ep.corruptPeerIndep && se.faults == 1 &&
+				peer.started && peer.finished && peer.err == nil && peer.panicked == nil {
+				add("fault-success-peer:"+c, "session %d: side %s consumed a %s frame and failed (%v), yet side %s reports success",
+					k+1, x.ep.side, c, x.err, peer.ep.side)
 			}
 		}
 		if se.faults == 0 && se.o.finished && se.i.finished && se.o.panicked == nil && se.i.panicked == nil {
